@@ -134,6 +134,24 @@ type c12merr map[string]int
 
 func (e c12merr) Error() string { return "merr" }
 
+type c12card struct{ name string }
+
+func (c c12card) Title() string { return c.name }
+func (c c12card) Wrap(h plush.HelperContext) (string, error) {
+	if !h.HasBlock() {
+		return "[noblock]", nil
+	}
+	b, err := h.Block()
+	return "[" + b + "]", err
+}
+func (c c12card) IsNil(v interface{}) string {
+	if v == nil {
+		return "nil"
+	}
+	return "non-nil"
+}
+func (c c12card) Opt(m map[string]interface{}) int { return len(m) }
+
 type c12shower struct{ Name string }
 
 func (s c12shower) Show(v interface{}) string {
@@ -388,6 +406,24 @@ func init() {
 				e.Distinct(t[0])
 				if (t[1] == "ERR") != (o.Class == "ERR") || (t[1] != "ERR" && o.Out != t[1]) {
 					e.Violate("c12-result", fmt.Sprintf("%s: got %s %q (%s), want %q", t[0], o.Class, o.Out, firstLine(o.Msg), t[1]), map[string]interface{}{"tmpl": t[0], "observed": o})
+				}
+			}
+		}
+		// several METHODS of different signatures called in one render (method values made by reflection share
+		// one code pointer): each call is bound by its own signature - omitted context / options supplied, nil stays nil
+		{
+			extra := map[string]interface{}{"card": c12card{"c"}, "pcard": &c12card{"p"}}
+			for _, t := range [][2]string{
+				{`<%= card.Title() %>|<%= card.Wrap() { %>b<% } %>`, "c|[b]"}, {`<%= card.Wrap() { %>b<% } %>|<%= card.IsNil() %>|<%= card.IsNil(nil) %>|<%= card.IsNil(1) %>`, "[b]|nil|nil|non-nil"},
+				{`<%= card.Opt() %>|<%= card.Title() %>|<%= card.Opt({a: 1, b: 2}) %>|<%= card.Wrap() { %>x<% } %>`, "0|c|2|[x]"}, {`<%= card.IsNil(nil) %>|<%= card.Opt() %>|<%= card.Wrap() %>`, "nil|0|[noblock]"},
+				{`<%= pcard.Title() %>|<%= pcard.Wrap() { %>q<% } %>|<%= card.Title() %>`, "p|[q]|c"}, {`<%= for (i) in [1, 2] { %><%= card.Title() %><%= card.Wrap() { %><%= i %><% } %><%= card.Opt() %>,<% } %>`, "c[1]0,c[2]0,"},
+			} {
+				o := runRenderExtra(RCase{Tmpl: t[0]}, extra)
+				e.rep.Evaluations++
+				e.Count("methods-of-different-signatures")
+				e.Distinct(t[0])
+				if o.Class != "OK" || o.Out != t[1] {
+					e.Violate("c12-bind", fmt.Sprintf("%s: rendered %q (%s %s), want %q", t[0], o.Out, o.Class, firstLine(o.Msg), t[1]), map[string]interface{}{"tmpl": t[0], "observed": o})
 				}
 			}
 		}
